@@ -319,6 +319,12 @@ func (g *SG) forIn(c *sctx) *ast.Node {
 				g.Labels["forin-empty-array"] = true
 			}
 		}
+		if g.hasFun("iterx") && g.int(0, 5, "stopiter") == 0 {
+			// the iterable comes out of a function that may end the rule (next) or the run (exit)
+			stop := rapid.SampledFrom([]string{"iterx", "itern"}).Draw(g.T, "iterstopper")
+			it = ast.Call(ast.Id(stop), ast.Str(v), it, ast.Num(fmt.Sprint(g.int(0, 1, "iterstops"))))
+			g.Labels["for-in-iterable-stops-run-or-rule"] = true
+		}
 		g.noteNest(c, "forin-arr")
 		return ast.ForIn(v, w, it, g.body(inner(c, "forin-arr", vars...), false))
 	case kind <= 6: // object: the body starts with the key-order marker
